@@ -22,6 +22,8 @@ def bounds(tier, seed):
 
 def cases(tier, seed):
     b = bounds(tier, seed)
+    for p, U in al.knotvectors("K5", 2 if tier == "quick" else 3, 2):
+        yield ("K5", p, U)  # far from the origin relative to the spacing
     for K in b["alphabets"]:
         for p, U in al.knotvectors(K, b["pmax"], b["kmax"]):
             if tier == "thorough" and p >= 4 and len(set(U)) > 4:
@@ -53,7 +55,7 @@ def run_case(case, res):
     K, p, U = case
     U = list(U)
     n = len(U) - p - 1
-    prm0 = al.params(U, p)
+    prm0 = al.params(U, p, near=True)
     prm = prm0
     wopts = [None, al.generic_weights(n)] + list(al.small_weight_vectors(n, 3))[1:]
     for rep in ("frac", "float"):
@@ -71,10 +73,16 @@ def run_case(case, res):
                 prm = prm0 + [u for u in near if U[0] < u < U[-1]]
             else:
                 prm = prm0
+            Uref = U
+            if not exact:
+                # the reference works with the exact values of the floats actually passed (knots and parameters)
+                Uref = [lib.to_frac(float(k)) for k in U]
+                prm = sorted(set(lib.to_frac(float(u)) for u in prm))
+                prm = [u for u in prm if Uref[0] <= u <= Uref[-1]]
             args = [lib.conv(u, rep) for u in prm]
             for j in range(p + 1):
                 res.state((U, j, W, rep))
-                T = ref_table(U, j, W, prm, n)
+                T = ref_table(Uref, j, W, prm, n)
                 tags = dict(rep=rep, rational=W is not None, sub=("p" if j == p else "lower"))
                 where = f"U={U} j={j} W={W} rep={rep}"
                 # full table, sequence call
@@ -96,9 +104,9 @@ def run_case(case, res):
                         res.violation("partition", f"sum_i f[i,p]({u}) = {sum(col)}; {where}", **tags)
                     if W is None:
                         for i in range(n):
-                            if (col[i] != 0 if exact else abs(col[i]) > F(1, 10 ** 12)) and not (U[i] <= u <= U[i + j + 1]):
+                            if (col[i] != 0 if exact else abs(col[i]) > F(1, 10 ** 12)) and not (Uref[i] <= u <= Uref[i + j + 1]):
                                 res.violation("support", f"f[{i},{j}]({u}) = {col[i]} outside its support; {where}", **tags)
-                    if u == U[-1] or rb.mult(U, u) >= 2 or sum(1 for x in col if x != 0) >= 2:
+                    if u == Uref[-1] or rb.mult(Uref, u) >= 2 or sum(1 for x in col if x != 0) >= 2:
                         res.nontriv((U, j, u))
                 # scalar calls on the full slice
                 for k, u in enumerate(args):
